@@ -1195,7 +1195,7 @@ def traceback_cases(ctx, rng):
 
     try:
         # ---- (1) independent modules, fresh path each
-        n_mod = 90 if ctx.quick else 2000
+        n_mod = 60 if ctx.quick else 2000
         for i in range(n_mod):
             src, lead, shape = gen_module(rng)
             path = os.path.join(root, "m%d.py" % i)
@@ -1224,7 +1224,7 @@ def traceback_cases(ctx, rng):
         main_path = os.path.join(root, "reused_main.py")
         lib_path = os.path.join(root, "reused_lib.py")
         single_path = os.path.join(root, "reused_single.py")
-        n_rounds = 50 if ctx.quick else 500
+        n_rounds = 35 if ctx.quick else 500
         for i in range(n_rounds):
             if rng.random() < 0.35:
                 src, lead, shape = gen_module(rng)
@@ -1786,7 +1786,7 @@ def stack_cases(ctx, rng):
 
     rtb.Syntax = RecordingSyntax
     try:
-        n_rounds = 60 if ctx.quick else 1500
+        n_rounds = 40 if ctx.quick else 1500
         for i in range(n_rounds):
             # the file system of this round
             names = rng.sample(STACK_FILE_NAMES, rng.choice([1, 2, 3, 4, 6]))
